@@ -564,10 +564,16 @@ impl World {
             Event::Preflight { request, total, ok, site } => {
                 let site = self.site(site);
                 self.c.preflight += 1;
-                let req = request.unwrap_or(0);
+                // None = the size does not fit in a usize
+                let req = request.unwrap_or(usize::MAX);
                 if *total != self.model_total {
                     let m = self.model_total;
                     self.problem(format!("balance: accounted {total} != model {m} at preflight"));
+                }
+                // the refusal is decided here from the limit, not taken from the hook
+                let due = self.limits.size.map_or(false, |l| total.saturating_add(req) > l);
+                if due != !*ok {
+                    self.problem(format!("preflight: request {req} at total {total} was {} but the limit says {}", if *ok { "accepted" } else { "refused" }, if due { "refuse" } else { "accept" }));
                 }
                 if !*ok {
                     self.c.preflight_fail += 1;
